@@ -1046,7 +1046,7 @@ fn mk_ga() -> ga::Response {
     .build()
 }
 macro_rules! mock_impl {
-    ($name:ident, $($lb:tt)*) => {
+    ($name:ident, {$($lb:tt)*}, {$($c1:tt)*}) => {
         struct $name(Beh);
         impl ctap2::Authenticator for $name {
             fn get_info(&mut self) -> gi::Response {
@@ -1102,16 +1102,30 @@ macro_rules! mock_impl {
                     None => Ok(ctap1::authenticate::Response { user_presence: 1, count: 7, signature: Bytes::new() }),
                 }
             }
+            $($c1)*
         }
     };
 }
-mock_impl!(MockDefault,);
-mock_impl!(MockLb,
+mock_impl!(MockDefault, {}, {});
+mock_impl!(MockLb, {
     fn large_blobs(&mut self, request: &lb::Request) -> ctap2::Result<lb::Response> {
         self.0.log.push(format!("large_blobs {:?}", request));
         match self.0.err2 { Some(e) => Err(e), None => Ok(lb::Response::default()) }
     }
-);
+}, {});
+// an authenticator that overrides the protocol-specific entry points themselves (e.g. to refuse everything while locked):
+// the generic Rpc::call must go through the override
+mock_impl!(MockOver, {
+    fn call_ctap2(&mut self, _request: &ctap2::Request) -> ctap2::Result<ctap2::Response> {
+        self.0.log.push("call_ctap2-override".into());
+        Err(ctap2::Error::OperationDenied)
+    }
+}, {
+    fn call_ctap1(&mut self, _request: &ctap1::Request<'_>) -> ctap1::Result<ctap1::Response> {
+        self.0.log.push("call_ctap1-override".into());
+        Err(ctap1::Error::ConditionsOfUseNotSatisfied)
+    }
+});
 
 fn resp2_name(r: &ctap2::Response) -> &'static str {
     use ctap2::Response::*;
@@ -1173,6 +1187,13 @@ fn dispatch2(entry: &str, beh: &str, lb_override: &str, data: &[u8]) -> String {
         let r = if entry == "rpc" { Rpc::call(&mut m, &req) } else { m.call_ctap2(&req) };
         (r, m.0.log)
     };
+    if entry == "rpc" {
+        let mut o = MockOver(Beh { err2: None, err1: None, log: vec![] });
+        let r = Rpc::call(&mut o, &req);
+        if o.0.log != ["call_ctap2-override"] || !matches!(r, Err(ctap2::Error::OperationDenied)) {
+            return format!("generic entry point does not go through an overriding call_ctap2: log={}", o.0.log.iter().map(|l| l.split(' ').next().unwrap_or("")).collect::<Vec<_>>().join(","));
+        }
+    }
     let names: Vec<&str> = log.iter().map(|l| l.split(' ').next().unwrap_or("")).collect();
     let same = log.iter().all(|l| *l == expected_param(&req));
     let r = match &res {
@@ -1220,6 +1241,13 @@ fn dispatch1(entry: &str, beh: &str, raw: &[u8]) -> String {
         None
     };
     let mut m = MockDefault(Beh { err2: None, err1, log: vec![] });
+    if entry == "rpc" {
+        let mut o = MockOver(Beh { err2: None, err1: None, log: vec![] });
+        let r = Rpc::call(&mut o, &req);
+        if o.0.log != ["call_ctap1-override"] || !matches!(r, Err(ctap1::Error::ConditionsOfUseNotSatisfied)) {
+            return format!("generic entry point does not go through an overriding call_ctap1: log={}", o.0.log.iter().map(|l| l.split(' ').next().unwrap_or("")).collect::<Vec<_>>().join(","));
+        }
+    }
     let res = if entry == "rpc" { Rpc::call(&mut m, &req) } else { m.call_ctap1(&req) };
     let names: Vec<&str> = m.0.log.iter().map(|l| l.split(' ').next().unwrap_or("")).collect();
     let expected = match &req {
